@@ -28,8 +28,8 @@ Definition topic_name_ok (s : bytes) : bool :=
 (* split on '/' *)
 Fixpoint split_sl (l : list N) (cur : list N) : list (list N) :=
   match l with
-  | [] => [rev cur]
-  | c :: r => if c =? SLASH then rev cur :: split_sl r [] else split_sl r (c :: cur)
+  | [] => [rev' cur]
+  | c :: r => if c =? SLASH then rev' cur :: split_sl r [] else split_sl r (c :: cur)
   end.
 
 (* 4.7.1.2: '#' must be the last character and occupy an entire level;
@@ -53,8 +53,8 @@ Fixpoint starts (p l : list N) : bool :=
 (* the share name: characters up to the next '/', and what follows it *)
 Fixpoint take_name (l : list N) (acc : list N) : list N * option (list N) :=
   match l with
-  | [] => (rev acc, None)
-  | c :: r => if c =? SLASH then (rev acc, Some r) else take_name r (c :: acc)
+  | [] => (rev' acc, None)
+  | c :: r => if c =? SLASH then (rev' acc, Some r) else take_name r (c :: acc)
   end.
 
 Definition char_len (c : N) : N := if c <? 128 then 1 else if c <? 2048 then 2 else if c <? 65536 then 3 else 4.
